@@ -364,6 +364,13 @@ def decodeHeader (s : Sch) (explode : Bool) (raw : String) (corner : Dec) : Dec 
   | .object => decodeObject s explode raw corner
   | t => parsePrim t raw
 
+/-- decodeValue on a header key that is present: with its first value, or with no value at all (`len(raw) == 0`:
+the decoders return nil and found — for an object schema a nil map, which the validator sees as an empty object) -/
+def decodeHdrVal (s : Sch) (explode : Bool) (rv : Option String) (corner : Dec) : Dec :=
+  match rv with
+  | some raw => decodeHeader s explode raw corner
+  | none => (match s.core.ty with | .object => .val (.obj .nil) | _ => .nil)
+
 structure Hdr where
   name : String
   required : Bool
@@ -393,8 +400,8 @@ structure Input where
   method : String
   status : Int
   responses : List (String × Resp)
-  /-- response headers: canonical name ↦ first value -/
-  hdrs : List (String × String)
+  /-- response headers: canonical name ↦ first value (`none`: the key is present with no value at all) -/
+  hdrs : List (String × Option String)
   /-- bytes still to be read from input.Body -/
   body : String
   /-- the body reader returns an error -/
@@ -414,17 +421,17 @@ structure Out where
   bodyAfter : Option String
   deriving DecidableEq, Repr
 
-def present (canon : String → String) (hdrs : List (String × String)) (h : Hdr) : Bool :=
+def present (canon : String → String) (hdrs : List (String × Option String)) (h : Hdr) : Bool :=
   (lookup (canon h.name) hdrs).isSome
 
 /-- validateResponseHeader (called with `append(opts, VisitAsResponse())` since commit 35101a0) -/
-def checkHeader (canon : String → String) (woOff : Bool) (hdrs : List (String × String)) (h : Hdr) : Option Err :=
+def checkHeader (canon : String → String) (woOff : Bool) (hdrs : List (String × Option String)) (h : Hdr) : Option Err :=
   match h.schema with
   | none => if !present canon hdrs h && h.required then some (.hdrMissing h.name) else none
   | some s =>
     match lookup (canon h.name) hdrs with
     | some raw =>
-      match decodeHeader s h.explode raw h.emptyNameDec with
+      match decodeHdrVal s h.explode raw h.emptyNameDec with
       | .err => some (.hdrDecode h.name)
       | .panic => some (.hdrPanic h.name)
       | .nil => if visit ⟨true, woOff⟩ .null s then none else some (.hdrSchema h.name)
@@ -445,7 +452,7 @@ def firstErr (f : Hdr → Option Err) : List Hdr → Option Err
 def checkedHeaders (r : Resp) : List Hdr := sortHdrs (r.headers.filter (fun h => h.name ≠ "Content-Type"))
 
 /-- `input.Header.Get("Content-Type")` -/
-def ctOf (i : Input) : String := (lookup "Content-Type" i.hdrs).getD ""
+def ctOf (i : Input) : String := ((lookup "Content-Type" i.hdrs).getD none).getD ""
 
 def skipStatus (status : Int) : Bool := status = 304 || status = 308 || status = 307 || status = 301
 
@@ -571,17 +578,17 @@ def Skipped (i : Input) : Prop := i.method = "HEAD" ∨ i.status = 301 ∨ i.sta
 
 /-- the value of a present header as the property reads it: the decoded value; a header for which the
 decoder produced no typed value is its text -/
-def specValue : Dec → String → Option J
+def specValue : Dec → Option String → Option J
   | .err, _ => none
   | .panic, _ => none
-  | .nil, raw => some (.str raw)
+  | .nil, raw => some (.str (raw.getD ""))
   | .val v, _ => some v
 
-def HeaderOK (canon : String → String) (woOff : Bool) (hdrs : List (String × String)) (h : Hdr) : Prop :=
+def HeaderOK (canon : String → String) (woOff : Bool) (hdrs : List (String × Option String)) (h : Hdr) : Prop :=
   match lookup (canon h.name) hdrs with
   | none => h.required = false
   | some raw => ∀ s, h.schema = some s →
-      ∃ v, specValue (decodeHeader s h.explode raw h.emptyNameDec) raw = some v ∧ SatRep woOff v s
+      ∃ v, specValue (decodeHdrVal s h.explode raw h.emptyNameDec) raw = some v ∧ SatRep woOff v s
 
 def BodyOK (reg : List (String × String)) (o : Opts) (i : Input) (r : Resp) : Prop :=
   r.content = [] ∨
@@ -599,13 +606,13 @@ def Accept (canon : String → String) (reg : List (String × String)) (o : Opts
 
 /-! executable twin of `Accept` (the oracle of the differential run) -/
 
-def headerOKB (canon : String → String) (woOff : Bool) (hdrs : List (String × String)) (h : Hdr) : Bool :=
+def headerOKB (canon : String → String) (woOff : Bool) (hdrs : List (String × Option String)) (h : Hdr) : Bool :=
   match lookup (canon h.name) hdrs with
   | none => !h.required
   | some raw =>
     match h.schema with
     | none => true
-    | some s => match specValue (decodeHeader s h.explode raw h.emptyNameDec) raw with | some v => satRepB woOff v s | none => false
+    | some s => match specValue (decodeHdrVal s h.explode raw h.emptyNameDec) raw with | some v => satRepB woOff v s | none => false
 
 def bodyOKB (reg : List (String × String)) (o : Opts) (i : Input) (r : Resp) : Bool :=
   r.content.isEmpty ||
@@ -655,17 +662,17 @@ end
 /-! ### Exclusion predicates (classes in which the code deviates from the property) -/
 
 /-- the decoding outcome of a declared header on this response (`none`: absent, or described by `content`) -/
-def hdrDec (canon : String → String) (hdrs : List (String × String)) (h : Hdr) : Option Dec :=
+def hdrDec (canon : String → String) (hdrs : List (String × Option String)) (h : Hdr) : Option Dec :=
   match h.schema, lookup (canon h.name) hdrs with
-  | some s, some raw => some (decodeHeader s h.explode raw h.emptyNameDec)
+  | some s, some raw => some (decodeHdrVal s h.explode raw h.emptyNameDec)
   | _, _ => none
 
 /-- F-C08-1: a present header with a schema whose decoding gives no value is visited as `null` -/
-def hdrDecodedNil (canon : String → String) (hdrs : List (String × String)) (h : Hdr) : Bool :=
+def hdrDecodedNil (canon : String → String) (hdrs : List (String × Option String)) (h : Hdr) : Bool :=
   match hdrDec canon hdrs h with | some .nil => true | _ => false
 
 /-- F-C08-5: a present header whose schema is an array without `items`, first item not empty: nil dereference -/
-def hdrArrayNoItems (canon : String → String) (hdrs : List (String × String)) (h : Hdr) : Bool :=
+def hdrArrayNoItems (canon : String → String) (hdrs : List (String × Option String)) (h : Hdr) : Bool :=
   match hdrDec canon hdrs h with | some .panic => true | _ => false
 
 def anyHdr (i : Input) (f : Hdr → Bool) : Bool :=
